@@ -35,7 +35,6 @@ theorem rollbackTx_applyOcc {c : Ctx} {ready : List Wid} (hAR : AllReady c.own r
     (hL : Loc c.p c.own B) (hG : LocG B) (hW : LocW B) (hGl : Glob c.own P B) (h2 : Glob2 P B)
     (hV : OccValid c.own P oc) (ht : touches c.own B oc.t = true)
     (hloc : c.node.txByFileLoc (oc.bm.hash, oc.ti) = some oc.t)
-    (hplain : oc.t.cb = true → ∀ o ∈ oc.t.outs, (ownerOf c.own o).isSome = true → isDeposit o.cls = false)
     (hR : AgreeR s (applyOcc c.p c.own B oc)) (hB : AgreeBal ready bals (applyOcc c.p c.own B oc)) :
     ∃ s' bals' rem, rollbackTx c s bals oc.bm oc.t.id = .ok (s', bals', rem) ∧ AgreeR s' B ∧
       AgreeBal ready bals' B ∧ SameRest s s' := by
@@ -47,13 +46,10 @@ theorem rollbackTx_applyOcc {c : Ctx} {ready : List Wid} (hAR : AllReady c.own r
     rw [mid_txrecs]; exact (glob_fresh hGl hV oc.bm 0).2.2
   by_cases hcb : oc.t.cb = true
   · -- coinbase
-    have houts : ∀ j o, oc.t.outs[j]? = some o → CbOutStep c oc.t oc.bm (fun j => Mid c.p c.own B oc 0 j) j o := by
+    have houts : ∀ j o, oc.t.outs[j]? = some o → OutStep c oc.t oc.bm (fun j => Mid c.p c.own B oc 0 j) j o := by
       intro j o ho
       obtain ⟨h1, h2', h3, h4, _⟩ := mid_out_step (k := 0) hL hG hW hGl h2 hV (Or.inl hcb) ho
-      refine ⟨h1, h2', ?_, h4⟩
-      intro w ch hown
-      refine ⟨(h3 w ch hown).1, ?_⟩
-      exact hplain hcb o (List.mem_of_getElem? ho) (by rw [hown]; rfl)
+      exact ⟨h1, h2', h3, h4⟩
     obtain ⟨s', bals', rem, hrun, hR', hB', hS⟩ :=
       rollbackTx_refines_cb hAR (fun j => Mid c.p c.own B oc 0 j) hloc hcb hT hR0 hB0 houts
     refine ⟨s', bals', rem, hrun, ?_, ?_, hS⟩
@@ -102,11 +98,10 @@ theorem rbStep_ok {c : Ctx} {bm : BlockMeta} {a : RbAcc} {id : TxId} {s' : Store
   rw [h]
   rfl
 
-/-- what the block lemma needs to know about a transaction of the block: its block, its block-file
-    location, no owned staking / binding coinbase output -/
+/-- what the block lemma needs to know about a transaction of the block: its block and its block-file
+    location -/
 def OccFacts (c : Ctx) (bm : BlockMeta) (oc : Occ) : Prop :=
-  oc.bm = bm ∧ c.node.txByFileLoc (oc.bm.hash, oc.ti) = some oc.t ∧
-    (oc.t.cb = true → ∀ o ∈ oc.t.outs, (ownerOf c.own o).isSome = true → isDeposit o.cls = false)
+  oc.bm = bm ∧ c.node.txByFileLoc (oc.bm.hash, oc.ti) = some oc.t
 
 theorem rollbackOccs_fold_rev {c : Ctx} {ready : List Wid} (hAR : AllReady c.own ready) (bm : BlockMeta)
     {P0 : List Occ} {B0 : Book}
@@ -128,7 +123,7 @@ theorem rollbackOccs_fold_rev {c : Ctx} {ready : List Wid} (hAR : AllReady c.own
     simp only [List.foldl_cons, List.foldl_nil] at hR hB
     obtain ⟨hV1, hV2⟩ := validFrom_append.1 hV
     have hVoc : OccValid c.own (P0 ++ r.reverse) oc := hV2.1
-    obtain ⟨hbm, hloc, hplain⟩ := hF oc (List.mem_cons_self ..)
+    obtain ⟨hbm, hloc⟩ := hF oc (List.mem_cons_self ..)
     have hF' : ∀ oc' ∈ r, OccFacts c bm oc' := fun oc' h => hF oc' (List.mem_cons_of_mem _ h)
     -- the books before `oc`
     have hGl1 := glob_fold (p := c.p) hGl hV1
@@ -139,7 +134,7 @@ theorem rollbackOccs_fold_rev {c : Ctx} {ready : List Wid} (hAR : AllReady c.own
     by_cases ht : touches c.own (r.reverse.foldl (applyOcc c.p c.own) B0) oc.t = true
     · rw [if_pos ht, List.reverse_append, List.reverse_singleton, List.singleton_append, List.foldlM_cons]
       obtain ⟨s1, bals1, rem, hrun, hR1, hB1, hS1⟩ :=
-        rollbackTx_applyOcc hAR hL1 hG1 hW1 hGl1 h21 hVoc ht hloc hplain hR hB
+        rollbackTx_applyOcc hAR hL1 hG1 hW1 hGl1 h21 hVoc ht hloc hR hB
       rw [hbm] at hrun
       rw [rbStep_ok hrun]
       obtain ⟨acc', hrun', hR', hB', hS', hH'⟩ :=
@@ -164,18 +159,16 @@ theorem rollbackOccs_fold {c : Ctx} {ready : List Wid} (hAR : AllReady c.own rea
   rw [List.reverse_reverse] at this
   exact this hV (fun oc h => hF oc (List.mem_reverse.1 h)) hR hB
 
-/-- the transactions of a block whose file is known: location and coinbase facts -/
-theorem occFacts_of_known {c : Ctx} (hcb : KnownCbPlain c) {b : Block}
+/-- the transactions of a block whose file is known: their location -/
+theorem occFacts_of_known {c : Ctx} {b : Block}
     (hk : AMap.get c.node.known b.id = some b) :
     ∀ oc ∈ occsOfBlock b, OccFacts c ⟨b.height, b.id⟩ oc := by
   intro oc hoc
   obtain ⟨m, hm, hti, hbm⟩ := mem_occsFrom.1 hoc
-  refine ⟨hbm, ?_, ?_⟩
-  · unfold Node.txByFileLoc
-    rw [hbm]
-    simp only [hk, hti, Nat.zero_add]
-    exact hm
-  · intro hc o ho hown
-    exact hcb b.id b hk oc.t (List.mem_of_getElem? hm) hc o ho hown
+  refine ⟨hbm, ?_⟩
+  unfold Node.txByFileLoc
+  rw [hbm]
+  simp only [hk, hti, Nat.zero_add]
+  exact hm
 
 end MW.Lemmas.Ledger
